@@ -48,6 +48,9 @@ type Type struct {
 	// Decorations of a KNamed struct
 	EqualMethod   string // "", "derived" (idiom: implemented by the derived function), "custom"
 	CompareMethod string // "", "derived", "custom"
+	// HashMethod: "custom" (pointer receiver) / "customv" (value receiver): Hash() uint64 consistent with the
+	// custom Equal (case-insensitive on Word)
+	HashMethod string
 	// Stringer: the named type declares String() string (fmt's %v, %s and %q call it, %#v does not)
 	Stringer bool
 }
